@@ -81,9 +81,25 @@ func dupNames(cols []string) map[string]bool {
 // right, to the tables of db. bind resolves let bindings and parameters.
 // The program must have been printed first (implicit column names).
 func Interp(p *Pipe, db map[string]*RTable, bind func(string) (val.V, bool)) (*Rel, error) {
+	// the database is extended locally with the results named by `as`
+	local := map[string]*RTable{}
+	for k, v := range db {
+		local[k] = v
+	}
+	db = local
+	return interp(p, db, bind)
+}
+
+// weakTable marks a named intermediate result whose content is not determined.
+var weakTable = &RTable{}
+
+func interp(p *Pipe, db map[string]*RTable, bind func(string) (val.V, bool)) (*Rel, error) {
 	t, ok := db[p.Table.Name]
 	if !ok {
 		return nil, ierr("unknown table %q", p.Table.Name)
+	}
+	if t.Cols == nil && t == weakTable {
+		return nil, ierr("reads a named result whose content is not determined")
 	}
 	rel := &Rel{Cols: append([]string{}, t.Cols...), Count: -1, Effects: map[string]bool{}}
 	if len(t.Rows) > 0 {
@@ -136,6 +152,11 @@ func applyOp(in *Rel, op *Op, db map[string]*RTable, bind func(string) (val.V, b
 	switch op.K {
 	case "as":
 		out.Groups = in.Groups
+		if in.Weak {
+			db[op.Name.Name] = weakTable
+		} else {
+			db[op.Name.Name] = &RTable{Cols: in.Cols, Rows: in.flat()}
+		}
 		return out, nil
 	case "where":
 		for _, g := range in.Groups {
@@ -480,7 +501,7 @@ func summarize(in *Rel, op *Op, bind func(string) (val.V, bool), amb map[string]
 }
 
 func join(in *Rel, op *Op, db map[string]*RTable, bind func(string) (val.V, bool)) (*Rel, error) {
-	right, err := Interp(op.Right, db, bind)
+	right, err := interp(op.Right, db, bind)
 	if err != nil {
 		return nil, err
 	}
